@@ -7,6 +7,7 @@ import OmplModel.Proofs.CopyWcFix
 import OmplModel.Proofs.CopySig
 import OmplModel.Proofs.CopyWrapNames
 import OmplModel.Proofs.CopyScoped
+import OmplModel.Proofs.CopyKeyed
 /-!
 C09 — copies and persisted data reproduce states and planner graphs exactly.
 
@@ -404,5 +405,98 @@ theorem load_rejects_other_kind (sig csig csig' : List Int) (g : Graph) :
     loadGraph markerPDC sig csig (storeGraph markerPD sig csig' g) = .error .marker ∧
     loadGraph markerPD sig csig (storeGraph markerPDC sig csig' g) = .error .marker := by
   constructor <;> simp [loadGraph, storeGraph, markerPD, markerPDC]
+
+/-! ## round 10: vertices addressed by state (`stateIndexMap_`), aliasing, `GraphStateStorage`, `extractStateStorage` -/
+
+/-- Every `PlannerData` reachable from the empty one by **any** sequence of the by-state operations (`addVertex`,
+`addStartVertex`, `addGoalVertex`, `markStartState`, `markGoalState`, `tagState`, `addEdge(v1, v2, …)`,
+`removeVertex(v)`, `removeEdge(v1, v2)`), the by-index ones, `clear()` (re-use), `decoupleFromPlanner()` and changes of the
+caller's state objects while coupled, stores and loads back as itself — provided no vertex is both start and goal (F31, see
+`load_store_start_and_goal_fails`; the full statement without `Disjoint` is false). -/
+theorem load_store_keyed_graph_partial (m : Nat) (sig csig : List Int) (kg : KGraph) (hb : KBuilt kg)
+    (hD : Disjoint kg.g) : loadGraph m sig csig (storeGraph m sig csig kg.g) = .ok kg.g :=
+  load_store_graph_eq m sig csig kg.g hb.kinv.inv.1 hb.kinv.inv.2.1 hb.kinv.inv.2.2 hD
+
+example : KBuilt ((((({} : KGraph).addStartVertex 5 ⟨0, [1]⟩).1.addEdgeV 5 ⟨9, [1]⟩ 6 ⟨1, [2]⟩ 3 none).1.removeVertexV 5).1.decouple) ∧
+    ((((({} : KGraph).addStartVertex 5 ⟨0, [1]⟩).1.addEdgeV 5 ⟨9, [1]⟩ 6 ⟨1, [2]⟩ 3 none).1.removeVertexV 5).1.decouple).g
+      = { verts := [⟨1, [2]⟩], edges := [], starts := [], goals := [] } :=
+  ⟨.decouple (.removeVertexV 5 (.addEdgeV 5 _ 6 _ 3 none (.addStartVertex 5 _ .empty))), by decide⟩
+
+/-- `stateIndexMap_` stays exact through every history (`removeVertex` shifts it, `clear` empties it, `decoupleFromPlanner`
+re-keys it): `vertexIndex` answers `i` iff vertex `i` is the one that points to that state object, and `i` is a vertex. -/
+theorem vertexIndex_exact (kg : KGraph) (hb : KBuilt kg) (sid i : Nat) :
+    (kg.vertexIndex sid = some i ↔ kg.keys[i]? = some (some sid)) ∧
+    (kg.vertexIndex sid = some i → i < kg.g.verts.length) ∧ kg.keys.length = kg.g.verts.length :=
+  ⟨vertexIndex_iff kg hb.kinv sid i, vertexIndex_lt kg hb.kinv sid i, hb.kinv.len⟩
+
+example : ((((({} : KGraph).addVertex 7 ⟨0, []⟩).1.addVertex 8 ⟨0, []⟩).1.addVertex 9 ⟨0, []⟩).1.removeVertexI 0).1.vertexIndex 9
+    = some 1 := by decide
+
+/-- the same state object is a vertex at most once: adding it again changes nothing (not even the tag) and reports the
+index it already has -/
+theorem addVertex_same_state_once (kg : KGraph) (hb : KBuilt kg) (sid : Nat) (v v' : Vertex) :
+    (kg.addVertex sid v).1.addVertex sid v' = ((kg.addVertex sid v).1, (kg.addVertex sid v).2) :=
+  addVertex_twice kg hb.kinv sid v v'
+
+example : ((({} : KGraph).addVertex 4 ⟨1, [5]⟩).1.addVertex 4 ⟨2, [6]⟩).1.g.verts = [⟨1, [5]⟩] := by decide
+
+/-- a decoupled graph (after `decoupleFromPlanner()`, and every graph `PlannerDataStorage::load` produced) is a copy: no
+change of the caller's state objects shows in it; a coupled vertex shows what its state object holds now -/
+theorem decoupled_graph_is_a_copy (kg : KGraph) (g : Graph) (tbl : Nat → Option (List Nat)) :
+    kg.decouple.refresh tbl = kg.decouple ∧ (KGraph.ofLoaded g).refresh tbl = KGraph.ofLoaded g ∧
+    ∀ (i sid : Nat) (img : List Nat) (v : Vertex), kg.keys[i]? = some (some sid) → kg.g.verts[i]? = some v →
+      tbl sid = some img → (kg.refresh tbl).g.verts[i]? = some { v with img := img } :=
+  ⟨decouple_refresh kg tbl, ofLoaded_refresh g tbl,
+    fun i sid img v hk hv ht => refreshVerts_coupled tbl _ _ i sid img v hk hv ht⟩
+
+example : ((({} : KGraph).addVertex 4 ⟨1, [5]⟩).1.refresh (fun _ => some [6])).g.verts = [⟨1, [6]⟩] ∧
+    ((({} : KGraph).addVertex 4 ⟨1, [5]⟩).1.decouple.refresh (fun _ => some [6])).g.verts = [⟨1, [5]⟩] := by decide
+
+/-- `GraphStateStorage` (states + one metadata vector per state): store then load gives the same object, cleanly -/
+theorem graphStorage_load_store (sig : List Int) (s : MStore) :
+    loadStatesM sig (storeStatesM sig s) = (s, none) :=
+  load_store_states_meta sig s
+
+example : loadStatesM [2, 1, 1] (storeStatesM [2, 1, 1] { states := [[1], [2]], md := [[1], []] })
+    = ({ states := [[1], [2]], md := [[1], []] }, none) := by decide
+
+/-- every proper record prefix of a `GraphStateStorage` archive (also the one that ends just before the metadata block)
+is reported as truncated, and the object is left **consistent**: the completely read states, each with one (default)
+metadata entry -/
+theorem graphStorage_truncated_consistent (sig : List Int) (s : MStore) (k : Nat)
+    (hk : k < (storeStatesM sig s).length) :
+    ∃ st, loadStatesM sig ((storeStatesM sig s).take k) = (st, some .truncated) ∧
+      st.states = s.states.take (k - 1) ∧ st.md.length = st.states.length ∧ ∀ m ∈ st.md, m = [] := by
+  refine ⟨_, loadStatesM_truncated sig s k hk, rfl, by simp, ?_⟩
+  intro m hm
+  exact (List.mem_replicate.mp hm).2
+
+example : loadStatesM [] ((storeStatesM [] { states := [[7]], md := [[0]] }).take 2)
+    = ({ states := [[7]], md := [[]] }, some .truncated) := by decide
+
+/-- F108 about the code before 2eed54bf6 (`metadata_.clear(); ia >> metadata_;`): the consistency clause fails -/
+theorem graphStorage_truncated_old_fails :
+    ¬ ∀ (sig : List Int) (s : MStore) (k : Nat), k < (storeStatesM sig s).length →
+      (loadStatesMOld sig ((storeStatesM sig s).take k)).1.md.length =
+        (loadStatesMOld sig ((storeStatesM sig s).take k)).1.states.length := by
+  intro h
+  have := h [] { states := [[7]], md := [[0]] } 2 (by decide)
+  rw [loadStatesMOld_truncated_inconsistent] at this
+  simp at this
+
+/-- `PlannerData::extractStateStorage()`: whatever order the pointer-keyed `stateIndexMap_` enumerates the vertices in
+(`order`, any permutation), the storage holds one entry per vertex, entry `j` is the state of vertex `order[j]`, and its
+metadata, read back through `order`, is exactly that vertex' out-neighbour list: the storage is the graph, renumbered. -/
+theorem extractStateStorage_isomorphic (g : Graph) (order : List Nat) (hW : g.WF)
+    (hp : order.Perm (List.range g.verts.length)) :
+    (extractStorage g order).states.length = g.verts.length ∧
+    (extractStorage g order).md.length = g.verts.length ∧
+    ∀ j (hj : j < order.length),
+      (extractStorage g order).states[j]? = (g.verts[order[j]]?).map (fun x => x.img) ∧
+      (extractStorage g order).nbrsOf order j = outNbrs g order[j] :=
+  extract_spec g order hW hp
+
+example : extractStorage { verts := [⟨0, [1]⟩, ⟨0, [2]⟩, ⟨0, [3]⟩], edges := [⟨0, 2, 0, none⟩, ⟨0, 1, 0, none⟩, ⟨2, 0, 0, none⟩] } [2, 0, 1]
+    = { states := [[3], [1], [2]], md := [[1], [0, 2], []] } := by decide
 
 end OmplModel.Props.C09
